@@ -118,13 +118,15 @@ func (x *Run) intrinsic(fr *Frame, st *State, fn *ssa.Function, args []Val, site
 	case "Sent":
 		// Sent(ch, v): a send of v on ch happened on this path
 		return single(st, Val{T: x.eventMatch(st, "send", args), S: SBool}), true
+	case "SentOn":
+		return single(st, Val{T: x.eventMatch(st, "send", args[:1]), S: SBool}), true
 	case "ClosedEv":
 		return single(st, Val{T: x.eventMatch(st, "close", args), S: SBool}), true
 	case "Called":
 		// Called("name-substring"): some call event whose name contains the string happened
 		s, _ := x.litString(args[0].T)
 		for _, e := range st.events {
-			if strings.Contains(e.Name, s) {
+			if evNameMatch(e.Name, s) {
 				return single(st, Val{T: "true", S: SBool}), true
 			}
 		}
@@ -133,7 +135,7 @@ func (x *Run) intrinsic(fr *Frame, st *State, fn *ssa.Function, args []Val, site
 		s, _ := x.litString(args[0].T)
 		n := 0
 		for _, e := range st.events {
-			if strings.Contains(e.Name, s) {
+			if evNameMatch(e.Name, s) {
 				n++
 			}
 		}
@@ -144,7 +146,7 @@ func (x *Run) intrinsic(fr *Frame, st *State, fn *ssa.Function, args []Val, site
 		idx, _ := litInt(args[1].T)
 		var alts []string
 		for _, e := range st.events {
-			if strings.Contains(e.Name, s) && idx < len(e.Args) && e.Args[idx].S == args[2].S {
+			if evNameMatch(e.Name, s) && idx < len(e.Args) && e.Args[idx].S == args[2].S {
 				alts = append(alts, eq(e.Args[idx].T, args[2].T))
 			}
 		}
@@ -155,7 +157,7 @@ func (x *Run) intrinsic(fr *Frame, st *State, fn *ssa.Function, args []Val, site
 		idx, _ := litInt(args[2].T)
 		k := 0
 		for _, e := range st.events {
-			if !strings.Contains(e.Name, sname) {
+			if !evNameMatch(e.Name, sname) {
 				continue
 			}
 			if k == nth {
@@ -195,10 +197,10 @@ func (x *Run) intrinsic(fr *Frame, st *State, fn *ssa.Function, args []Val, site
 		b, _ := x.litString(args[1].T)
 		ia, ib := -1, -1
 		for i, e := range st.events {
-			if ia < 0 && strings.Contains(e.Name, a) {
+			if ia < 0 && evNameMatch(e.Name, a) {
 				ia = i
 			}
-			if ib < 0 && strings.Contains(e.Name, b) {
+			if ib < 0 && evNameMatch(e.Name, b) {
 				ib = i
 			}
 		}
@@ -211,7 +213,7 @@ func (x *Run) intrinsic(fr *Frame, st *State, fn *ssa.Function, args []Val, site
 		idx, _ := litInt(args[1].T)
 		for i := len(st.events) - 1; i >= 0; i-- {
 			e := st.events[i]
-			if strings.Contains(e.Name, s) {
+			if evNameMatch(e.Name, s) {
 				r := e.Ret
 				if r.S == "Tuple" && idx < len(r.Tup) {
 					r = r.Tup[idx]
@@ -367,6 +369,7 @@ func (x *Run) useContract(fr *Frame, st *State, con *Contract, args []Val, site 
 		x.prepareUse(ctx, con, st)
 	}
 	res := st
+	res.lit = map[string]map[string]Val{}
 	res.heap = map[string]string{}
 	for k, v := range ctx.heap {
 		res.heap[k] = v
@@ -412,7 +415,10 @@ func (x *Run) prepareUse(ctx *useCtx, con *Contract, st *State) {
 	ctx.done = true
 	h := ctx.base.clone()
 	if con.Target != nil {
-		ms := x.modSet(con.Target)
+		ms := newModSet()
+		if !con.Trusted {
+			ms = x.modSet(con.Target)
+		}
 		if con.Modifies != nil {
 			ms = newModSet()
 			for _, m := range con.Modifies {
@@ -446,6 +452,7 @@ func (x *Run) useSelfCall(fr *Frame, st *State, fn *ssa.Function, args []Val, si
 		x.prepareUse(ctx, fr.con, st)
 	}
 	st.heap = map[string]string{}
+	st.lit = map[string]map[string]Val{}
 	for k, v := range ctx.heap {
 		st.heap[k] = v
 	}
@@ -520,6 +527,9 @@ func (x *Run) evalPure(fr *Frame, st *State, fn *ssa.Function, args []Val, bound
 // ---------- obligations ----------
 
 func (x *Run) oblige(st *State, name, kind, goal string, pos token.Pos, note string) {
+	if (x.pureDepth > 0 || x.inInit) && (kind == "nopanic" || kind == "lock") {
+		return
+	}
 	ob := &Obligation{Name: name, Kind: kind, Unit: x.unit, Pos: x.posStr(pos), Goal: goal, Trace: append([]string(nil), st.trace...), Note: note}
 	if goal == "true" {
 		ob.Static = true
@@ -595,4 +605,22 @@ func (x *Run) solveCached(body string) SolveResult {
 	}
 	solveCache.Store(key, r)
 	return r
+}
+
+// evNameMatch: the event name contains pat, not followed by '$' (closures of
+// the named function are different events).
+func evNameMatch(name, pat string) bool {
+	i := strings.Index(name, pat)
+	for i >= 0 {
+		j := i + len(pat)
+		if j >= len(name) || name[j] != '$' {
+			return true
+		}
+		k := strings.Index(name[j:], pat)
+		if k < 0 {
+			return false
+		}
+		i = j + k
+	}
+	return false
 }
